@@ -24,7 +24,7 @@ DEF_CLAUSES = {
     "def.second_checker": {"C14"},
     "def.wrapped_chain": {"C14"},
     "def.registered_count": {"C18"},
-    "def.verdict_ne_lists": {"C18", "C04", "C01", "C02"},
+    "def.verdict_ne_lists": {"C18", "C04", "C01", "C02", "C08"},
     "def.verdict_ne_reference": {"C01", "C02", "C03", "C04", "C08"},
     "def.view": {"C18"},
     "proto.no_expected_step": set(),
@@ -157,6 +157,11 @@ def verdicts_unit(res: CheckResult, hist: dict, expected: Dict[int, dict], ic: A
                     roles = {hist["con"][v[1] - 1]["role"] for v in (want, got)
                              if v[0] == "violation" and 1 <= v[1] <= len(hist["con"])}
                     props = set().union(*[ROLE_PROPS.get(r, set()) for r in roles]) if roles else {"C04"}
+                    if got[0] == "exception":
+                        # the call failed with an error of the library (e.g. a missing OLD): every kind of contract
+                        # the member carries is concerned
+                        props |= {"C04"} | ({"C08"} if mv["snap"] else set()) | ({"C02"} if mv["post"] else set()) | (
+                            {"C01"} if mv["pre"] else set())
                     what = "history {} class {} member {}: the effective contracts of the specification say {} but " \
                            "the call gives {} under {}".format(hist["hid"], j, name, want, got, rt.truth)
                     if res.prop in props:
